@@ -53,6 +53,19 @@ func runC20(p *Prog, r *Report) {
 	r.Borrow(p, runC07, map[string]string{"C07.R2": "C20.R5", "C07.R1": "C20.R5"}, nil)
 	// R8: a middleware answers every request: no lock is re-acquired while held on any call path (a self-deadlock leaves the request, and all later ones, without any response); shared with C09.R4
 	c09Reacquire(p, r, "C20.R8", c09RootTypes(p))
+	// R9: built-in extractors give every client its own source, so nobody is limited because of somebody else (shared with C19.R1/R2)
+	r.Borrow(p, runC19, map[string]string{"C19.R1": "C20.R9", "C19.R2": "C20.R9"}, nil)
+	// R10: the breaker's fallback handlers keep no per-request state in shared objects (shared with C09.R1)
+	{
+		var fbs []*types.Named
+		for _, n := range c09RootTypes(p) {
+			if n.Obj().Pkg() != nil && n.Obj().Pkg().Name() == "cbreaker" && n.Obj().Name() != "CircuitBreaker" {
+				fbs = append(fbs, n)
+			}
+		}
+		c09Races(p, r, "C20.R10", fbs)
+		r.Floor("C20.R10", len(fbs), 2, "handler / side-effect types of package cbreaker")
+	}
 	// R7: verbose/debug logging is transparent: the request dump only reads the request
 	checkDumpReadOnly(p, r, "C20.R7")
 	// R6: the rate limiter has no spurious reason to intervene: its bookkeeping call cannot fail for any configured rate (shared with C03.R10)
